@@ -10,6 +10,7 @@ case "$1" in
   C05) exec python3-vt checks/c05.py ;;
   C09) exec python3-vt checks/c09.py ;;
   C10) exec python3-vt checks/c10.py ;;
+  C15) exec python3-vt checks/c15.py ;;
   C12) exec python3-vt checks/c12.py ;;
   C13) exec python3-vt checks/c13.py ;;
   C14) exec python3-vt checks/c14.py ;;
